@@ -599,6 +599,43 @@ def cache_coverage(rec, F):
         rec.finding(R, "F4.cache-cover/c", "Vm::repl compiles every entry into one module, but Compiler::new starts a fresh CacheIdEmitter and Vm::compile replaces inline_cache[m.id()] with a cache sized for the latest entry only: slot ids embedded in earlier entries' code index past the end", loc=cn.loc, fn=cn.path)
 
 
+def synthetic_call_protocol(rec, F):
+    """calls the VM makes on its own behalf (callbacks for natives, constructing a runtime error) obey the call protocol"""
+    R = rec.rule("F4.call-proto", "the call protocol reserves the slot below the arguments for the callee/receiver (call_class stores the new instance there, returns replace it with the result): every VM function that pushes values itself and then calls resolve_call(callee, n) pushes exactly one slot plus the n arguments. With the slot missing, the value below the arguments - a local of the running function - is overwritten")
+    n = 0
+    for fn in F.all_fns():
+        if fn.crate != "laythe_vm" or "::test" in fn.path or "laythe_vm::vm" not in fn.path:
+            continue
+        rcs = [(bi, t) for bi, t in fn.calls() if lastseg(t["f"]) == "resolve_call"]
+        pushes = [(bi, t) for bi, t in fn.calls() if lastseg(t["f"]) == "push" and "fiber::Fiber" in t["f"]]
+        if not rcs or not pushes:
+            continue
+        for rb, rt in rcs:
+            before = [(bi, t) for bi, t in pushes if sem.reaches(fn, bi, rb)]
+            if not before:
+                continue
+            n += 1
+            inloop = [(bi, t) for bi, t in before if any(sem.reaches(fn, s_, bi) for s_ in fn.succ(bi))]
+            straight = [x for x in before if x not in inloop]
+            argc = rt["args"][2] if len(rt["args"]) > 2 else None
+            cn = sem.const_int(argc) if argc is not None else None
+            if cn is not None:
+                ok = len(straight) == cn + 1 and not inloop
+                want = "%d pushes (callee slot + %d argument%s)" % (cn + 1, cn, "" if cn == 1 else "s")
+            else:
+                ok = len(straight) == 1 and len(inloop) == 1
+                want = "one push for the callee/receiver slot and one push per argument in a loop"
+            # the stack is reserved for at least as many slots as are pushed without a loop
+            es = [t for bi, t in fn.calls() if lastseg(t["f"]) == "ensure_stack" and sem.reaches(fn, bi, rb)]
+            if ok and es and cn is not None:
+                kn = sem.const_int(es[0]["args"][2]) if len(es[0]["args"]) > 2 else None
+                ok = kn is None or kn >= cn + 1
+            rec.inst(R, "%s: %s before resolve_call" % (fn.name, want), ok=ok, loc=loc_of(rt["sp"]), note="straight-line pushes=%d, loop pushes=%d" % (len(straight), len(inloop)))
+            if not ok:
+                rec.finding(R, "F4.call-proto/%s" % fn.name, "Vm::%s pushes %d value(s)%s and then calls resolve_call with %s argument(s): the protocol needs %s. The slot below the arguments is used as the callee slot, so a live stack value there (the local under the operands of a failing `1 + \"a\"`) is overwritten with the constructed object" % (fn.name, len(straight), " plus a loop" if inloop else "", cn if cn is not None else "args.len()", want), loc=loc_of(rt["sp"]), fn=fn.path)
+    rec.floor(R, "VM functions that build a call frame themselves", n, 3)
+
+
 def backtrace_window(rec, F):
     R = rec.rule("F10.bt", "pause_unwind appends the instruction pointers of the frames not yet recorded: counting from the innermost frame it first skips the current_len already recorded and then takes additional_len (which is computed relative to that position); finish_unwind/error_backtrace pair frames with those ips innermost first")
     pu = F.fn("laythe_vm::fiber::Fiber::pause_unwind")
